@@ -1004,6 +1004,35 @@ def fam_planes(ctx, tier, seed):
                 ctx.cell('Plane.P3', 'ok' if (res['columns'] or res['rows']) else 'bad')
 
 
+def fam_far_triangles(ctx):
+    """planes through three points that are close together compared with their distance from the origin (edges 1e-2 .. 30 at coordinates
+    around 900, non-integer): the plane contains its defining points, and a line through two of them lies in it"""
+    SE3, Plucker, Plane = _lib()
+    centres = [('c900', np.array([900.3, -870.7, 910.9])), ('c37', np.array([37.3, 12.1, -25.7])), ('c1', np.array([0.3, -0.7, 0.9]))]
+    d1, d2 = unit(np.array([1.0, 2.0, -0.5])), unit(np.array([-0.3, 0.4, 1.0]))
+    for (cn, c), e in itertools.product(centres, (1e-2, 0.1, 1.0, 30.0)):
+        A, B, C = c, c + e * d1, c + 0.7 * e * d2
+        if np.abs(np.r_[A, B, C]).max() > 1e3:
+            continue
+        cid = 'C19/Plane/far-triangle/%s/edge=%g' % (cn, e)
+        if not ctx.want(cid):
+            continue
+        ctx.case(cid, key=cid)
+        p = dict(ctor='Plane.P3', method='contains', expect='True', what='far-triangle', centre=cn, edge=e)
+        for layout, Mx in (('columns', np.c_[A, B, C]), ('rows', np.array([A, B, C]))):
+            ok, pl = call(Plane.P3, Mx.copy())
+            if not ok or not isinstance(pl, Plane):
+                continue
+            good = []
+            for X in (A, B, C, (A + B + C) / 3):
+                okc, val = call(pl.contains, X.copy())
+                good.append(okc and asbool(val) is True)
+            p['layout_' + layout] = all(good)
+        if not (p.get('layout_columns') or p.get('layout_rows')):
+            ctx.fail(cid, 'Plane.contains', 'mismatch', dict(ctor='Plane.P3', method='contains', expect='True', what='far-triangle'),
+                     'the plane through three points %.3g apart around %s does not contain them (nor their centroid)' % (e, f3(c)))
+
+
 def fam_reuse(ctx, tier, seed):
     """the SAME Plane / Plucker objects used in several operations in a row (added after a seeded change that rescaled a
     Plane's normal in place): every result must be what elementary geometry gives for the defining data"""
@@ -1096,6 +1125,7 @@ def run_shard(ctx, shard):
         return
     if kind == 'reuse':
         fam_reuse(ctx, tier, seed)
+        fam_far_triangles(ctx)
         return
     if kind == 'etype':
         fam_etypes(ctx)
